@@ -6,6 +6,20 @@ NOTES = ('Static analysis only: every verdict is computed from the ast of /repo/
          'Exit 2 + ANALYSIS-ERROR means the analysis could not decide (never a verdict).')
 
 CHECKS = {
+    'C13': {
+        'level': 'Formal clauses of C13 by abstract interpretation of dea3: Shanks fixed-point identity (rational function identity in L, a, q), form of '
+                 'the convergence / irregular-behaviour guard (cross-checked against Dea._dea), non-negative error estimate, no in-place write to '
+                 'inputs, elementwise dependence and shapes, symmetric trimming, nothing raises. Rounding bounds / honesty of the estimate not decided.',
+        'note': 'Regularisers dropped for the identity. Trusted: abstract interpreter, exact rational-function algebra.',
+        'technique': 'abstract interpretation of dea3 over exact algebra (guarded choices kept symbolic) and over the data-dependence / sign / aliasing domain',
+    },
+    'C14': {
+        'level': 'EpsAlg against the exact Wynn epsilon table for symbolic sequences (rational function identities); Dea: first extrapolation equals dea3, '
+                 'values are even-order table entries with guards off through table shifts, table index bound explored over every guard outcome when more '
+                 'terms than the table holds are fed, error floor. Finiteness under rounding not decided.',
+        'note': 'Open known finding: IndexError on the all_converged path (F8). The EpsAlg vanishing-difference guard is accepted up to 1e-30.',
+        'technique': 'abstract interpretation of EpsAlg/Dea over exact rational functions and over an opaque-data domain with exploration of guard outcomes',
+    },
     'C07': {
         'level': 'Formal statement of C07 for a symbolic (real or complex) step ratio, spacing 1..4, leading order, 0..5 terms and short / long '
                  'sequences: abstract run of Richardson.__call__ on a symbolic model sequence; weights sum to one and annihilate each modelled power in '
